@@ -19,6 +19,7 @@ from .tlc import MachineryError
 
 EXPECT = {"Acq": "acquire", "Body": "body", "BodyFail": "body", "Rel": "release"}
 RAISED = -1
+FALSY = (None, 0, False, "", ())
 
 
 class ProbeError(Exception):
@@ -39,6 +40,7 @@ class World:
         self.nbody = 0
         self.results: dict[int, list] = {}
         self.fail: set = set()
+        self.falsy = FALSY[uid % len(FALSY)]
         ctl = self.ctl = sched.Controller(groups=["memo"])
         g = self.g = sched.load_utils_copy(f"utils__c15memo_{uid}", ctl)
         sched.install_locks(g, ctl, "m")
@@ -55,6 +57,8 @@ class World:
                     world.fail.discard(me)
                     raise ProbeError("the memoized computation fails")
                 world.nbody += 1
+                if world.kind == "cached" and world._form(args, kwargs)["ret"] == "falsy":
+                    return world.falsy  # a legitimate result whose truth value is False
                 return world.nbody
             finally:
                 ctl.inbody.discard(me)
@@ -72,6 +76,12 @@ class World:
             if at[0] not in ("acquire", "done"):
                 raise Divergence("BodyOnce", "first-step", f"thread {t} stopped at {at[0]!r} before acquiring the memo lock")
 
+    def _form(self, args, kwargs):
+        for f in self.cfg["args"]:
+            if list(args) == list(f["pos"]) and kwargs == {k: v for k, v in f["kw"]}:
+                return f
+        raise MachineryError(f"probe called with unknown arguments {args} {kwargs}")
+
     def _program(self, t):
         def run():
             for item in self.cfg["prog"][t - 1]:
@@ -83,6 +93,9 @@ class World:
                         if self.kind == "cached":
                             form = self.cfg["args"][item["a"] - 1]  # positional and keyword arguments
                             r = self.wrapped(*form["pos"], **{k: v for k, v in form["kw"]})
+                            if form["ret"] == "falsy":
+                                # the value itself carries no ordinal: compare it, keep the spec's number
+                                r = ("falsy", r is self.falsy or (r == self.falsy and type(r) is type(self.falsy)))
                         else:
                             r = self.wrapped()
                     except ProbeError:
@@ -123,7 +136,12 @@ class World:
                 rs = self.results.get(t, [])
                 if len(rs) != n0 + 1:
                     raise Divergence("BodyOnce", "Rel:no-return", f"thread {t} released the lock but the call did not return")
-                if rs[-1] != op["res"]:
+                if isinstance(rs[-1], tuple):
+                    if not rs[-1][1] or op["res"] <= 0:
+                        raise Divergence("ValueFresh", "Rel:falsy-value",
+                                         f"thread {t}: the memoized call did not return the body's falsy result "
+                                         f"{self.falsy!r} (specified: value of body execution {op['res']})")
+                elif rs[-1] != op["res"]:
                     raise Divergence("ValueFresh", "Rel:value",
                                      f"thread {t}: the memoized call returned {rs[-1]}, specified {op['res']} "
                                      f"(values are the ordinals of body executions, -1 = raised): a value computed "
